@@ -11,6 +11,7 @@ import SmoothProofs.C19Leaves
 import SmoothProofs.C19Writes
 import SmoothProofs.C19Ad
 import SmoothProofs.C19Bundle
+import SmoothProofs.C19Hess
 
 open Lin Scalar Mem Sparse
 
@@ -163,6 +164,64 @@ theorem values_equal_dense_all (d : GDesc) (inv : Bool) (m : SpMat α) (a : Arra
   unfold drExpSparse
   rw [← e1, ← e2, hv, f3]
 
+/-- **only pattern-block entries are addressed (Hessian routines)**: every `coeffRef` issued by
+    `d2r_exp_sparse` / `d2r_expinv_sparse` — any descriptor, any Bundle nesting, any offset `i0`, any
+    host height `rows = sp.rows()` — goes to `(i0 + r, rows·(i0 + c / Dof) + i0 + c % Dof)` with
+    `(r, c)` in the published `d2_exp_sparse_pattern`. -/
+theorem writes_inside_block_hessian (d : GDesc) (inv : Bool) (rows : Nat) (a : Array α) (i0 : Nat) :
+    ∀ w ∈ d2Writes inv rows d a 0 i0,
+      ∃ r c, (r, c) ∈ d2Pattern d ∧ w.1 = i0 + r
+        ∧ w.2.1 = rows * (i0 + c / dofSize d) + (i0 + c % dofSize d) := by
+  intro w hw
+  obtain ⟨r, c, hr, hc, hp, e1, e2⟩ := d2Writes_inBlock inv rows d a 0 i0 w hw
+  exact ⟨r, c, (mem_gridFilter _ _ _ r c).2 ⟨hr, hc, hp⟩, e1, e2⟩
+
+/-- **values_equal_dense for the Hessian routines, every descriptor, Bundles included** (any
+    nesting, commutative parts, tangent segment offsets and block offsets as the C++ passes them).
+    When `i0 + Dof ≤ sp.rows()` (the routine's assertion) and the host contains the shifted block,
+    then for EVERY entry `(r, c)` of the published `d2_exp_sparse_pattern` of the whole descriptor the
+    result holds at `(i0 + r, rows·(i0 + c / Dof) + i0 + c % Dof)` exactly the dense model Hessian
+    `d2r_exp a (r, c)` (resp. `d2r_expinv`) of the WHOLE descriptor — for Bundles the placed part
+    Hessian `H[off+r, D(off+j)+off+k] = Hᵢ[r, dᵢ·j+k]`, by induction over `Bundle.bundle ps`.
+    `ZeroLaws α` (`x + 0 = x`, `0 + x = x`; true for ℝ, ℚ) is needed only because the dense Bundle
+    Hessian of the model is written as a sum of placed parts. -/
+theorem hessian_values_equal_dense_all (hz : ZeroLaws α) (d : GDesc) (inv : Bool) (m : SpMat α) (a : Array α)
+    (i0 : Nat) (hrows : i0 + dofSize d ≤ m.rows)
+    (hhost : ∀ k ∈ d2Pattern d,
+      SpMat.hasKey (i0 + k.1, m.rows * (i0 + k.2 / dofSize d) + (i0 + k.2 % dofSize d)) m.entries = true)
+    (r c : Nat) (hrc : (r, c) ∈ d2Pattern d) :
+    (d2rExpSparse d inv m a i0).get? (i0 + r) (m.rows * (i0 + c / dofSize d) + (i0 + c % dofSize d))
+      = some (getN (selH inv (GDesc.model (α := α) d) (ofArray _ a 0)) r c) := by
+  have hpat := (mem_gridFilter _ _ _ r c).1 hrc
+  have hkeys : ∀ w ∈ d2Writes inv m.rows d a 0 i0, SpMat.hasKey (w.1, w.2.1) m.entries = true := by
+    intro w hw
+    obtain ⟨r', c', hm, e1, e2⟩ := writes_inside_block_hessian d inv m.rows a i0 w hw
+    rw [e1, e2]
+    exact hhost (r', c') hm
+  obtain ⟨w, hw, e1, e2⟩ := d2Writes_covers inv m.rows d a 0 i0 r c hpat.1 hpat.2.1 hpat.2.2
+  obtain ⟨r', c', _, hc', _, f1, f2, f3⟩ := d2Writes_hasValue hz inv m.rows d a 0 i0 w hw
+  have hr' : r' = r := by omega
+  have hc'' : c' = c := hkey_inj m.rows (dofSize d) i0 hrows c' c hc' hpat.2.1 (by rw [← f2, e2])
+  subst hr'; subst hc''
+  have hv := SpMat.blockWrite_values m (d2Writes inv m.rows d a 0 i0) hkeys
+    (d2Writes_nodup inv m.rows d a 0 i0 hrows) w hw
+  unfold d2rExpSparse
+  rw [← e1, ← e2, hv, f3]
+
+/-- the Hessian product step on its own: inside `Bundle.prod A B` (`D = d_A + d_B`) the dense
+    Hessian at `(r, J·D + K)`, `r, J, K < d_A`, is `A`'s Hessian at `(r, J·d_A + K)`, and at
+    `(d_A + r, (d_A + J)·D + d_A + K)` it is `B`'s (tangent segment at `ao + d_A`) at `(r, J·d_B + K)` -/
+theorem prod_hessian_values (hz : ZeroLaws α) (inv : Bool) (A B : LieModel α) (a : Array α) (ao : Nat) :
+    (∀ r J K, r < A.dof → J < A.dof → K < A.dof →
+      getN (selH inv (Bundle.prod A B) (ofArray (A.dof + B.dof) a ao)) r (J * (A.dof + B.dof) + K)
+        = getN (selH inv A (ofArray A.dof a ao)) r (J * A.dof + K))
+    ∧ (∀ r J K, r < B.dof → J < B.dof → K < B.dof →
+      getN (selH inv (Bundle.prod A B) (ofArray (A.dof + B.dof) a ao)) (A.dof + r)
+          ((A.dof + J) * (A.dof + B.dof) + (A.dof + K))
+        = getN (selH inv B (ofArray B.dof a (ao + A.dof))) r (J * B.dof + K)) :=
+  ⟨fun r J K => (prod_hess_values hz inv A B a ao).1 A.dof B.dof rfl rfl r J K,
+   fun r J K => (prod_hess_values hz inv A B a ao).2 A.dof B.dof rfl rfl r J K⟩
+
 /-- the product step on its own: the block of `Bundle.prod A B` is `A`'s dense value in the
     top-left and `B`'s dense value (tangent segment at `ao + A.dof`) at the indices shifted by `A.dof` -/
 theorem prod_values (inv : Bool) (A B : LieModel α) (a : Array α) (ao : Nat) :
@@ -211,6 +270,34 @@ theorem bundle_writes_concat (inv : Bool) (p : GDesc) (ps : List GDesc) (a : Arr
     dWritesL inv (p :: ps) a ao i0 = dWrites inv p a ao i0 ++ dWritesL inv ps a (ao + dofSize p) (i0 + dofSize p) := rfl
 
 end block
+
+/-- **The sparse Hessian IS the dense Hessian, over ℝ, for every descriptor**: for every
+    `(r, c)` with `r < Dof`, `c < Dof²` — inside the published pattern the stored value of
+    `d2r_exp_sparse` / `d2r_expinv_sparse` is the dense model value, outside the pattern (nothing is
+    stored) the dense model value is `0`. -/
+theorem hessian_sparse_equals_dense (d : GDesc) (inv : Bool) (m : SpMat ℝ) (a : Array ℝ) (i0 : Nat)
+    (hrows : i0 + dofSize d ≤ m.rows)
+    (hhost : ∀ k ∈ d2Pattern d,
+      SpMat.hasKey (i0 + k.1, m.rows * (i0 + k.2 / dofSize d) + (i0 + k.2 % dofSize d)) m.entries = true)
+    (r c : Nat) (hr : r < dofSize d) (hc : c < dofSize d * dofSize d) :
+    ((r, c) ∈ d2Pattern d →
+      (d2rExpSparse d inv m a i0).get? (i0 + r) (m.rows * (i0 + c / dofSize d) + (i0 + c % dofSize d))
+        = some (getN (selH inv (GDesc.model (α := ℝ) d) (ofArray _ a 0)) r c))
+    ∧ ((r, c) ∉ d2Pattern d → getN (selH inv (GDesc.model (α := ℝ) d) (ofArray _ a 0)) r c = 0) := by
+  refine ⟨hessian_values_equal_dense_all zeroLaws_real d inv m a i0 hrows hhost r c, ?_⟩
+  intro hn
+  have h := pattern_covers_support_hessian d (ofArray _ a 0) r c hr hc hn
+  cases inv
+  · exact h.1
+  · exact h.2
+
+/-- non-vacuity of `hessian_values_equal_dense_all`: SE(2) inside a Bundle `[R¹, SE(2)]` (`Dof = 4`,
+    10 pattern entries, all in rows/blocks 1..3), host = the published pattern itself, `i0 = 0` -/
+example : ZeroLaws ℝ ∧ (d2Pattern (.bundle [.tn 1, .se2])).length = 10
+    ∧ ∀ k ∈ d2Pattern (.bundle [.tn 1, .se2]),
+      SpMat.hasKey (0 + k.1, 4 * (0 + k.2 / dofSize (.bundle [.tn 1, .se2])) + (0 + k.2 % dofSize (.bundle [.tn 1, .se2])))
+        ((d2Pattern (.bundle [.tn 1, .se2])).map (fun k => (k, (0 : Nat)))) = true := by
+  refine ⟨zeroLaws_real, by decide, by decide⟩
 
 /- ### non-vacuity: the published patterns of the model (kernel-evaluated) and a concrete block write -/
 example : dPattern .se2 = [(0, 0), (1, 0), (0, 1), (1, 1), (0, 2), (1, 2), (2, 2)] := by decide
